@@ -3,6 +3,7 @@ import ast
 
 from ..astutil import (AnalysisError, dotted, calls_in, last_attr, receiver, norm, is_name, walk_local, is_self_attr,
                        loc, short, parent_map, names_in)
+from .c12 import sigterm_handler
 from ..cfg import is_flow, path_str
 from .c20 import guarded_by_wait
 
@@ -165,8 +166,8 @@ def run(ctx):
                         hit = (node, 'assign' if isinstance(node, ast.Assign) else 'del', base.attr)
             if hit:
                 n_mut += 1
-                ok = fn.name in ('run', '__init__', 'cleanup')
-                ctx.check('R4', f'{fn.short}: mutation `{hit[1]}` of {hit[2]} is made by run / the constructor / the signal clean-up', ok, fn.short,
+                ok = fn.name in ('run', '__init__') or (fn.parent is not None and fn.parent.name == 'install_handlers' and sigterm_handler(fn.parent) is fn)
+                ctx.check('R4', f'{fn.short}: mutation `{hit[1]}` of {hit[2]} is made by run / the constructor / the signal clean-up', ok, fn.short if fn.parent is None else f'{fn.parent.short}.<closure>',
                           f'foreign-registry-mutation:{hit[2]}.{hit[1]}', f'{fn.short} mutates the server registry `{hit[2]}`', where=loc(fn, hit[0]))
     ctx.floor('registry mutation sites', n_mut, 6)
     # the child is registered only if its creation succeeded
